@@ -453,7 +453,7 @@ pub fn c19(opts: &Opts, out: &mut Out, vectors: &str) {
     let configs: Vec<(usize, usize, usize, usize, bool)> = if opts.thorough {
         vec![(1, 1, 1, 1, true), (1, 2, 2, 2, false), (2, 1, 1, 3, true), (4, 2, 4, 1, false), (8, 1, 1, 6, true), (8, 4, 4, 2, false), (16, 2, 2, 4, false), (32, 1, 2, 1, true), (64, 1, 1, 2, true), (64, 2, 2, 1, false), (8, 8, 8, 1, false)]
     } else {
-        vec![(1, 2, 2, 2, false), (2, 1, 1, 3, true), (8, 1, 2, 1, true), (8, 2, 2, 2, false), (64, 1, 1, 1, true)]
+        vec![(1, 2, 2, 2, false), (2, 1, 1, 3, true), (8, 1, 2, 1, true), (8, 2, 2, 2, false), (64, 1, 1, 1, true), (4, 4, 8, 5, false), (2, 1, 1, 6, true), (16, 2, 4, 4, false)]
     };
     for (n, m, cap, t, seeded) in configs {
         for class in [4usize, 5] {
